@@ -7,7 +7,8 @@
 //   loglik   : Poisson log-likelihood value / gradient / sensitivity / Hessian product with T threads vs 1 thread
 //   loglik_full     : the same objective function with 1..3 subsets, normalisation, additive term, end-plane zeroing: per subset
 //                     value, sub-gradient, sub-gradient + sensitivity, add_subset_sensitivity, accumulate_sub_Hessian_times_input,
-//                     add_multiplication_with_approximate_sub_Hessian, T threads vs 1 thread (one trace per distributable call)
+//                     add_multiplication_with_approximate_sub_Hessian, T threads vs 1 thread (one trace per objective function, and
+//                     the work items of every distributable pass as a trace of their own); the value repeated 150 times on a small data set
 //   projdata_stream : projection data held in ProjDataInterfile / ProjDataFromStream on real files (written by this harness under
 //                     <dir of opsfile>/c18_files_<tier>) and in ProjDataInMemory:
 //                       .io      concurrent get_/set_ viewgram / sinogram / segment / bin value from the harness' own parallel loop
@@ -162,6 +163,9 @@ emit_trace(const std::string& name, int expected_bp, int expected_fp, int expect
     }
   std::fprintf(ops, "end\n");
   std::fprintf(out, "ok\n");
+  // a crash of the library in a later scenario must not leave the two files cut at different places
+  std::fflush(ops);
+  std::fflush(out);
 }
 
 static void
